@@ -318,6 +318,18 @@ pub fn observe_glob_by(id: u64, e: &str, route: &str, sigma: &[u32], want: &Want
                 "post_dfa": no_table(), "re_prefix": [], "re_has_post": false, "re_post": [],
                 "rebuild": "none", "rebuild_dfa": no_table(), "rebuild_ncap": 0, "rebuild_caps": [],
             });
+            // partition_or_empty / partition_or_tree: the same prefix; the postfix, or the empty glob / the tree glob
+            // (Glob::empty(), Glob::tree()) when there is none
+            let (poe_prefix, poe) = glob.clone().partition_or_empty();
+            let (pot_prefix, pot) = glob.clone().partition_or_tree();
+            part["poe_prefix"] = json!(cps(&poe_prefix.to_string_lossy()));
+            part["poe"] = json!(cps(&poe.to_string()));
+            part["poe_dfa"] = table_json(poe.verif_pattern(), sigma, max_states);
+            part["pot_prefix"] = json!(cps(&pot_prefix.to_string_lossy()));
+            part["pot"] = json!(cps(&pot.to_string()));
+            part["pot_dfa"] = table_json(pot.verif_pattern(), sigma, max_states);
+            part["empty_dfa"] = table_json(Glob::empty().verif_pattern(), sigma, max_states);
+            part["tree_dfa"] = table_json(Glob::tree().verif_pattern(), sigma, max_states);
             // the same partition of a glob that OWNS its expression text (into_owned, FromStr)
             let mut variants = vec![("own", Some(glob.clone().into_owned()))];
             variants.push(("par", e.parse::<Glob<'static>>().ok()));
